@@ -16,6 +16,15 @@ NOTES = ("Every check = TLA+ specification under spec/ checked by TLC + conforma
          "known_findings.json lists genuine defects (known / fixed).")
 NOT_APPLICABLE = {}
 CHECKS = {
+    "C03": {
+        "level": "model_checking",
+        "technique": "TLA+ spec Cascade.tla (declarative Winner vs implementation-shaped insertion machine) model-checked by TLC; every scenario materialised as a real document and replayed through tree.GetAllComputedStyles",
+        "text": "TLC checks for every list of <= 2 (thorough: simulated 3) competing occurrences that the insertion loop of style.go, as modelled, "
+                "leaves the CSS winner in the slot (ImplCorrect, PrefixMax), and emits the winner; the harness materialises every carrier "
+                "(UA/user sheets, <style>, <link>, @import early/late, @media print/screen, nested rule, style attribute, presentational hint, "
+                "non-matching decoys) and compares the computed value of the probe element.",
+        "note": "One probe property/element; UA !important not generated; the model constants StyleAttrSpec/NestedBeforeOwn mirror the code and must be kept in step with it.",
+    },
     "C05": {
         "level": "model_checking",
         "technique": "TLA+ spec Selectors.tla (declarative Matches vs right-to-left candidate-set state machine) model-checked by TLC; every (tree, selector) state replayed into css/selector",
